@@ -25,6 +25,8 @@ def main(argv=None) -> int:
         os.execv(sys.executable, [sys.executable, os.path.abspath(__file__)] + (argv or sys.argv[1:]))
 
     sys.dont_write_bytecode = True
+    import warnings
+    warnings.filterwarnings("ignore")
     sys.path.insert(0, VERIF)
     sys.path.insert(0, REPO_SRC)
     from sim import seams
